@@ -273,7 +273,11 @@ static ListColumn ratio_column = {
 
 static void method_crc_column_print(LHAFileHeader *header)
 {
-	printf("%-5s %04x", header->compress_method, header->crc);
+	// The compression method is copied straight from the file header
+	// and can contain arbitrary bytes.
+
+	safe_printf("%-5s", header->compress_method);
+	printf(" %04x", header->crc);
 }
 
 static ListColumn method_crc_column = {
